@@ -1,8 +1,9 @@
 (* Model of link/solicit/hash.go: session identifier, protocol hash, sorted intersection. *)
-From Bifrost Require Import Lib.Base Lib.Lex Lib.Sym.
+From Bifrost Require Import Lib.Base Lib.Lex Lib.Sym Lib.Varint gen.Solicit.
 
 Definition FN_BLAKE3 : nat := 3%nat.
-Definition hash_size : nat := 32%nat.
+(* HashSize, regenerated from link/solicit/hash.go *)
+Definition hash_size : nat := Z.to_nat solicit_hash_size.
 
 (* ComputeSessionID: BLAKE3(lower || higher), peers ordered as Go strings. *)
 Definition session_id (a b : bytes) : sbytes :=
@@ -10,9 +11,10 @@ Definition session_id (a b : bytes) : sbytes :=
   let hi := if lex_gt a b then a else b in
   fout FN_BLAKE3 hash_size (lift lo ++ lift hi).
 
-(* ComputeProtocolHash: BLAKE3(session_id || protocol_id || context). *)
+(* ComputeProtocolHash: BLAKE3(session_id || uvarint(len protocol_id) || protocol_id || context). *)
 Definition protocol_hash (sid : sbytes) (pid ctx : bytes) : sbytes :=
-  fout FN_BLAKE3 hash_size (sid ++ lift pid ++ lift ctx).
+  fout FN_BLAKE3 hash_size
+       (sid ++ lift (varint_enc (Z.of_nat (length pid))) ++ lift pid ++ lift ctx).
 
 (* FindMatchingHashes: the two-index merge loop; i advances on Lt, j on Gt, both on Eq. *)
 Fixpoint find_matching (l r : list bytes) : list bytes :=
